@@ -1541,6 +1541,12 @@ class OutlineOTFCompiler(BaseOutlineCompiler):
             info, "openTypeNamePreferredFamilyName"
         )
         topDict.Weight = getAttrWithFallback(info, "postscriptWeightName")
+        # fontTools encodes FullName and FamilyName as Latin-1 and Weight as ASCII:
+        # reduce values it could not encode the same way as Notice and Copyright
+        for key, limit in (("FullName", 0xFF), ("FamilyName", 0xFF), ("Weight", 0x7F)):
+            value = getattr(topDict, key)
+            if value and any(ord(c) > limit for c in value):
+                setattr(topDict, key, normalizeStringForPostscript(value))
         # populate various numbers
         topDict.isFixedPitch = int(getAttrWithFallback(info, "postscriptIsFixedPitch"))
         topDict.ItalicAngle = float(getAttrWithFallback(info, "italicAngle"))
